@@ -4,6 +4,7 @@ import (
 	"errors"
 	"fmt"
 	"math/rand"
+	"runtime"
 	"sort"
 	"strings"
 	"sync"
@@ -23,6 +24,7 @@ func init() {
 	apiParts["C15/concurrent"] = c15Concurrent
 	apiParts["C15/replace-same"] = c15ReplaceSame
 	apiParts["C15/hysteresis"] = c15Hysteresis
+	apiParts["C15/large-set"] = c15LargeSetPublication
 }
 
 func hostStr(h *host.Host) string {
@@ -457,7 +459,23 @@ func c15Hysteresis(r *ev.Run) {
 			healthy[i] = true
 		}
 		var trace []string
+		// in half of the runs the thresholds are changed once by a configuration update (same interval, same checker)
+		resetAt := -1
+		if rnd.Intn(2) == 0 {
+			resetAt = 2 + rnd.Intn(rounds-2)
+		}
 		for rd := 0; rd < rounds; rd++ {
+			if rd == resetAt {
+				fall = uint32([]int{1, 2, 3, 5, 7}[rnd.Intn(5)])
+				rise = uint32([]int{1, 2, 4, 3, 7}[rnd.Intn(5)])
+				if err := mon.ResetHealthCheck(&hcpb.HealthCheck{Interval: time.Hour, Timeout: time.Second, FallThreshold: fall, RiseThreshold: rise,
+					Checker: &hcpb.HealthCheck_TcpChecker{TcpChecker: &hcpb.TCPChecker{}}}); err != nil {
+					r.Internal("ResetHealthCheck: %v", err)
+					return
+				}
+				trace = append(trace, fmt.Sprintf("thresholds updated: fall=%d rise=%d", fall, rise))
+				r.Count("threshold_updates", 1)
+			}
 			row := make([]bool, nh)
 			omu.Lock()
 			for i, h := range hosts {
@@ -548,6 +566,94 @@ func c15(r *ev.Run) {
 	runAPIPart(r, "sequential", false, nil, 10*time.Minute)
 	runAPIPart(r, "concurrent", true, scope, 10*time.Minute)
 	runAPIPart(r, "replace-same", false, nil, 10*time.Minute)
+	runAPIPart(r, "large-set", false, nil, 10*time.Minute)
 	runAPIPart(r, "hysteresis", false, nil, 10*time.Minute)
 	r.Require("sequential_steps", 1000)
+	r.Require("large_set_joins", 30)
+}
+
+// c15LargeSetPublication: what Healthy() reports after concurrent operations joined is the state after the LAST of them - with sets
+// of thousands of hosts (collecting and sorting the view takes milliseconds) an operation that prepares its view early and publishes
+// it late would overwrite the view of an operation that ran in between. One goroutine adds / removes / replaces members of a large
+// backup tier, another marks the only main host healthy (or a member unhealthy) a PRNG fraction of a millisecond later; at the join the
+// view equation must hold.
+func c15LargeSetPublication(r *ev.Run) {
+	rounds := 40
+	if r.Tier == "thorough" {
+		rounds = 400
+	}
+	rnd := rand.New(rand.NewSource(r.Seed + 1515))
+	for ri := 0; ri < rounds; ri++ {
+		n := []int{3000, 12000, 30000}[ri%3]
+		set := host.NewSet()
+		created := make([]*host.Host, 0, n+4)
+		backups := make([]*host.Host, 0, n)
+		for i := 0; i < n; i++ {
+			backups = append(backups, host.NewWithType(fmt.Sprintf("10.%d.%d.%d:80", 1+i/65536, (i/256)%256, i%256), host.TypeBackup))
+		}
+		mainHost := host.NewWithType("10.0.0.1:81", host.TypeMain)
+		set.Add(backups...)
+		set.Add(mainHost)
+		created = append(created, backups...)
+		created = append(created, mainHost)
+		set.MarkHostUnhealthy(mainHost) // the backup tier is in use
+		op := ri % 4
+		extra := host.NewWithType("10.250.0.1:80", host.TypeBackup)
+		var repl []*host.Host
+		if op == 2 {
+			for i := 0; i < n; i++ {
+				repl = append(repl, host.NewWithType(backups[i].Addr, host.TypeBackup))
+			}
+			repl = append(repl, host.NewWithType(mainHost.Addr, host.TypeMain))
+		}
+		delay := time.Duration(rnd.Intn(1500)) * time.Microsecond
+		start := make(chan struct{})
+		var wg sync.WaitGroup
+		wg.Add(2)
+		go func() {
+			defer wg.Done()
+			<-start
+			switch op {
+			case 0, 3:
+				set.Add(extra)
+			case 1:
+				set.Remove(host.NewWithType(backups[n/2].Addr, host.TypeBackup))
+			default:
+				set.ReplaceAll(repl)
+			}
+		}()
+		go func() {
+			defer wg.Done()
+			<-start
+			t0 := time.Now()
+			for time.Since(t0) < delay {
+				runtime.Gosched()
+			}
+			if op == 3 {
+				set.MarkHostUnhealthy(backups[7])
+			} else if op == 2 {
+				set.MarkHostUnhealthy(repl[3]) // (a member only if the replacement already ran; otherwise a no-op on a non-member)
+			} else {
+				set.MarkHostHealthy(mainHost)
+			}
+		}()
+		close(start)
+		wg.Wait()
+		if op == 0 || op == 3 {
+			created = append(created, extra)
+		}
+		if op == 2 {
+			created = append(created, repl...)
+		}
+		if probs := usableProblems(set, created); len(probs) > 0 {
+			msg := probs[0]
+			if len(msg) > 300 {
+				msg = msg[:300] + "..."
+			}
+			r.Violation("C15:large-set-join:"+strings.SplitN(probs[0], ":", 2)[0], "after two concurrent operations on a large host set joined, the set's view is not the state after the last of them: "+msg,
+				map[string]interface{}{"hosts": n, "operation": []string{"Add one backup host", "Remove one backup host", "ReplaceAll with fresh objects", "Add one backup host"}[op], "concurrent_mark": []string{"MarkHostHealthy(main)", "MarkHostHealthy(main)", "MarkHostUnhealthy(new member)", "MarkHostUnhealthy(a backup)"}[op], "mark_started_after": delay.String(), "usable_reported": len(set.Healthy())})
+		}
+		r.Count("large_set_joins", 1)
+		r.Case(fmt.Sprintf("large/%d/op%d", n, op))
+	}
 }
